@@ -139,6 +139,24 @@ func (idx *hybridSearchIndex) AddWithID(id uint32, vector []float32, text string
 func (idx *hybridSearchIndex) addInternal(id uint32, vector []float32, text string, metadata map[string]interface{}) error {
 	info := &documentInfo{}
 
+	// The metadata index is written last: reject values it cannot store before the
+	// vector and text indexes have accepted the document
+	if idx.metadataIndex != nil && len(metadata) > 0 {
+		if err := validateMetadata(metadata); err != nil {
+			return fmt.Errorf("failed to add to metadata index: %w", err)
+		}
+	}
+
+	// rollback undoes the sub-index adds already made when a later one fails
+	rollback := func() {
+		if info.hasVector {
+			_ = idx.vectorIndex.Remove(*NewVectorNodeWithID(id, nil))
+		}
+		if info.hasText {
+			_ = idx.textIndex.Remove(id)
+		}
+	}
+
 	// Add to vector index
 	if idx.vectorIndex != nil && vector != nil && len(vector) > 0 {
 		vectorNode := NewVectorNodeWithID(id, vector)
@@ -151,6 +169,7 @@ func (idx *hybridSearchIndex) addInternal(id uint32, vector []float32, text stri
 	// Add to text index
 	if idx.textIndex != nil && text != "" {
 		if err := idx.textIndex.Add(id, text); err != nil {
+			rollback()
 			return fmt.Errorf("failed to add to text index: %w", err)
 		}
 		info.hasText = true
@@ -160,6 +179,7 @@ func (idx *hybridSearchIndex) addInternal(id uint32, vector []float32, text stri
 	if idx.metadataIndex != nil && metadata != nil && len(metadata) > 0 {
 		metadataNode := NewMetadataNodeWithID(id, metadata)
 		if err := idx.metadataIndex.Add(*metadataNode); err != nil {
+			rollback()
 			return fmt.Errorf("failed to add to metadata index: %w", err)
 		}
 		info.hasMetadata = true
